@@ -1,6 +1,9 @@
 //! vcheck — bounded exhaustive exploration of keepsimple1/mdns-sd (see /verif/DESIGN.md).
 mod c01;
+mod browse;
 mod c02;
+mod c03;
+mod c05;
 mod c06;
 mod c07;
 mod c09;
@@ -13,6 +16,7 @@ mod c17;
 mod c19;
 mod fw;
 mod indep;
+mod refstore;
 mod scn;
 mod sim;
 
@@ -54,6 +58,8 @@ fn main() {
     let code = match id {
         "C01" => c01::check(tier),
         "C02" => c02::check(tier),
+        "C03" => c03::check(tier),
+        "C05" => c05::check(tier),
         "C06" => c06::check(tier),
         "C07" => c07::check(tier),
         "C09" => c09::check(tier),
